@@ -294,6 +294,7 @@ density_sketch<T, K, A> density_sketch<T, K, A>::deserialize(std::istream& is, c
   while (num_to_read > 0) {
     const auto level_size = read<uint32_t>(is);
     if (!is.good()) throw std::runtime_error("error reading from std::istream");
+    check_level_size(level_size, num_to_read);
     Level lvl(allocator);
     lvl.reserve(level_size);
     for (uint32_t i = 0; i < level_size; ++i) {
@@ -362,6 +363,7 @@ density_sketch<T, K, A> density_sketch<T, K, A>::deserialize(const void* bytes, 
     ensure_minimum_memory(end_ptr - ptr, sizeof(uint32_t));
     uint32_t level_size;
     ptr += copy_from_mem(ptr, level_size);
+    check_level_size(level_size, num_to_read);
     ensure_minimum_memory(end_ptr - ptr, level_size * pt_size);
     Level lvl(allocator);
     lvl.reserve(level_size);
@@ -386,6 +388,13 @@ template<typename T, typename K, typename A>
 void density_sketch<T, K, A>::check_k(uint16_t k) {
   if (k < 2)
     throw std::invalid_argument("k must be > 1. Found: " + std::to_string(k));
+}
+
+template<typename T, typename K, typename A>
+void density_sketch<T, K, A>::check_level_size(uint32_t level_size, int64_t num_to_read) {
+  if (level_size > num_to_read)
+    throw std::invalid_argument("Possible corruption. Level size " + std::to_string(level_size)
+        + " exceeds the number of retained items left to read: " + std::to_string(num_to_read));
 }
 
 template<typename T, typename K, typename A>
